@@ -58,6 +58,24 @@ let addr_mode () =
     done
   with End_of_file -> ())
 
+(* ---- sync mode: replay a synchronisation trace on the protocol model ------------------------------------- *)
+let sync_mode () =
+  let id = ref "" and cfg = ref (0, 0, 0) and evs = ref [] in
+  (try
+    while true do
+      let line = input_line stdin in
+      match String.split_on_char ' ' (String.trim line) |> List.filter (fun s -> s <> "") with
+      | "C" :: rest -> id := String.concat " " rest; evs := []
+      | ["A"; a; b; c] -> cfg := (int_of_string a, int_of_string b, int_of_string c)
+      | "V" :: c :: args -> evs := (z_of_int (int_of_string c), List.map (fun x -> z_of_int (int_of_string x)) args) :: !evs
+      | "X" :: _ ->
+          let (a, b, c) = !cfg in
+          let r = accept_sync (z_of_int a) (z_of_int b) (z_of_int c) (List.rev !evs) in
+          Printf.printf "C %s\nY" !id; List.iter (fun z -> Printf.printf " %d" (int_of_z z)) r; print_string "\nX\n"
+      | _ -> ()
+    done
+  with End_of_file -> ())
+
 let sim_mode () =
   let id = ref "" and ops = ref [] and evs = ref [] and faults = ref [] in
   (try
@@ -75,4 +93,7 @@ let sim_mode () =
     done
   with End_of_file -> ())
 
-let () = if Array.length Sys.argv > 1 && Sys.argv.(1) = "addr" then addr_mode () else sim_mode ()
+let () =
+  if Array.length Sys.argv > 1 && Sys.argv.(1) = "addr" then addr_mode ()
+  else if Array.length Sys.argv > 1 && Sys.argv.(1) = "sync" then sync_mode ()
+  else sim_mode ()
